@@ -61,3 +61,57 @@ m = {
 }
 json.dump(m, open(os.path.join(V, "MANIFEST.json"), "w"), indent=1)
 print("checks:", [c["property_id"] for c in checks], "na:", len(na))
+
+
+# ---- DESIGN.md generated sections ------------------------------------------------------------------------------
+def _gen_props():
+    titles = {}
+    for l in open(os.path.join(V, "properties.jsonl")):
+        d = json.loads(l)
+        titles[d["id"]] = d["title"]
+    out = []
+    for pid in ids:
+        out.append("### %s %s" % (pid, titles[pid]))
+        if pid in P.PROPS:
+            s_ = P.PROPS[pid]
+            units = ", ".join("`%s`" % u for u in s_.get("vx", []))
+            hs = ", ".join("`%s`%s" % (h["harness"], " (BOUNDED: %s)" % h.get("bound") if h.get("bounded") else "") for h in s_.get("kx", []))
+            out.append("*Claimed.* Verus units: %s.%s" % (units or "none", (" Kani harnesses: %s." % hs) if hs else ""))
+            out.append("*Technique.* " + s_["technique"])
+            out.append("*Decided.* " + s_["explanation"])
+            out.append("*Not decided / assumed.* " + s_.get("not_decided", ""))
+        else:
+            out.append("*Not applicable.* " + NA.get(pid, PENDING))
+        out.append("")
+    return "\n\n".join(x for x in out)
+
+
+def _gen_seeded():
+    rows = []
+    sd = os.path.join(V, "seeded")
+    if os.path.isdir(sd):
+        for d in sorted(os.listdir(sd)):
+            mp = os.path.join(sd, d, "meta.json")
+            if os.path.exists(mp):
+                mt = json.load(open(mp))
+                rows.append("| `%s` | %s | %s | %s | %s |" % (d, mt.get("property"), mt.get("change", "").replace("|", "/"), mt.get("needs", "").replace("|", "/"), mt.get("verdict", "").replace("|", "/")))
+    head = "| seeded/ | property | change | needs, to manifest | `./check` on the changed tree |\n|---|---|---|---|---|\n"
+    return head + "\n".join(rows) + "\n"
+
+
+def _splice(text, name, body):
+    a = "<!-- BEGIN GENERATED:%s" % name
+    b = "<!-- END GENERATED:%s -->" % name
+    i = text.index(a)
+    i = text.index("\n", i) + 1
+    j = text.index(b)
+    return text[:i] + body + "\n" + text[j:]
+
+
+for fn in ("DESIGN.md", "DESIGN.md.new"):
+    dp = os.path.join(V, fn)
+    if os.path.exists(dp) and "BEGIN GENERATED:properties" in open(dp).read():
+        t = open(dp).read()
+        t = _splice(t, "properties", _gen_props())
+        t = _splice(t, "seeded", _gen_seeded())
+        open(dp, "w").write(t)
